@@ -37,8 +37,11 @@ def mk_scripts(rng, n, sks):
         if r < 0.08:
             # the signature check comes after an OP_CODESEPARATOR: the BIP342 digest commits to its position (0 here)
             out.append(bytes([OP_CODESEPARATOR]) + push_only(secp.xonly_from_sec(sks[i % len(sks)] + i)) + bytes([OP_CHECKSIG]))
-        elif r < 0.7:
+        elif r < 0.6:
             out.append(push_only(secp.xonly_from_sec(sks[i % len(sks)] + i)) + bytes([OP_CHECKSIG]))
+        elif r < 0.7:
+            # the signature is not the bottom witness element: <preimage> <sig> - spent with the %SIG% marker among the arguments
+            out.append(push_only(secp.xonly_from_sec(sks[i % len(sks)] + i)) + bytes([OP_CHECKSIGVERIFY, OP_SHA256]) + push_only(sha256(bytes([i & 255, i >> 8, 9]))) + bytes([OP_EQUAL]))
         elif r < 0.85:
             out.append(bytes([OP_SHA256]) + push_only(sha256(bytes([i & 255, i >> 8]))) + bytes([OP_EQUAL]))
         elif r < 0.90 or n > 64:
@@ -227,9 +230,17 @@ def tree_case(job):
                     cand = cs_first
                 if not cand:
                     continue
+                marked = [i for i in range(n) if len(scripts[i]) == 69 and scripts[i][33] == OP_CHECKSIGVERIFY and origin[i] == i]
+                if marked and rng.random() < 0.6:
+                    cand = marked
+                if not cand:
+                    continue
                 idx = rng.choice(cand)
                 args = pre + ['--tx=' + txh, '--txin=' + finh] + base + [str(idx)]
-                wit = dict(wit0, mode='scriptpath', index=idx)
+                if idx in marked:
+                    # tap's marker for the place of the signature among the spend arguments
+                    args += ['0x' + bytes([idx & 255, idx >> 8, 9]).hex(), '%SIG%']
+                wit = dict(wit0, mode='scriptpath', index=idx, spend_arguments=args[-2:] if idx in marked else [])
             r = run_tap(tap, args, wd, mode='pty')
             if r.abnormal:
                 part.violation('sighash-run:' + r.crash_key('tap'), dict(wit, run=r.brief()))
@@ -254,6 +265,8 @@ def tree_case(job):
                 want = sighash.sighash_taproot(rt, 0, 0, spent, 1, None, leaf, 0 if after_cs else 0xffffffff)
                 if after_cs:
                     kind = 'scriptpath-after-codeseparator'
+                if len(scripts[idx]) == 69:
+                    kind = 'scriptpath-signature-at-marker'
                 signer = sks[origin[idx] % len(sks)] + origin[idx]      # (a leaf that repeats another leaf's script is signed with that leaf's key)
             if got != want:
                 part.violation('reported-sighash-differs:' + kind, dict(wit, reported=got.hex(), reference=want.hex(), tx=mt.group(1)[:400]))
